@@ -27,7 +27,7 @@ def _call(packed):
         return ("crash", "%r\n%s" % (err, traceback.format_exc()))
 
 
-def run_shards(fn, items, deadline, workers=None, into=None, ordered=False):
+def run_shards(fn, items, deadline, workers=None, into=None, ordered=False, persistent=False):
     """Run fn(item, deadline) -> Acc for every item, merge into one Acc.
 
     fn must be a module-level function.  `deadline` is an absolute time.time();
@@ -48,7 +48,10 @@ def run_shards(fn, items, deadline, workers=None, into=None, ordered=False):
                 raise HarnessError("shard %r failed: %s" % (it, val))
             total.merge(val)
         return total
-    pool = _get_pool(workers)
+    if persistent:
+        pool = _get_pool(workers)
+    else:
+        pool = multiprocessing.get_context("fork").Pool(min(workers, len(items)))
     try:
         packed = [(fn, it, deadline) for it in items]
         it = pool.imap(_call, packed, chunksize=1) if ordered else pool.imap_unordered(_call, packed, chunksize=1)
@@ -57,8 +60,13 @@ def run_shards(fn, items, deadline, workers=None, into=None, ordered=False):
                 raise HarnessError("shard failed: %s" % (val,))
             total.merge(val)
     except BaseException:
-        _drop_pool()
+        if persistent:
+            _drop_pool()
         raise
+    finally:
+        if not persistent:
+            pool.terminate()
+            pool.join()
     return total
 
 
